@@ -560,6 +560,65 @@ impl Sim<'_> {
         Ok(Some(uris))
     }
 
+    /// Selection rules on a font whose IFTX table repeats partial-invalidation entries (same URIs) of its
+    /// IFT table: IFT picks its best candidate; IFTX must pick the best of its candidates other than that URI.
+    pub fn check_twin_selection(&mut self, font: &[u8], m: &ModelFont, def: &Def) -> Result<(), V> {
+        let w = &self.plan.world;
+        let fr = FontRef::new(font).map_err(|e| viol("C18", "C18.output_opens", format!("font does not open: {e}")))?;
+        let rd = real_def(def);
+        let group = PatchGroup::select_next_patches(fr, &rd).map_err(|e| viol("C19", "C19.selection_error", format!("select_next_patches failed: {e:?}")))?;
+        let uris: Vec<String> = group.uris().map(|s| s.to_string()).collect();
+        let cands = w.candidates(m, def);
+        if cands.iter().any(|c| c.format == 1) {
+            return Ok(());
+        }
+        self.stats.bump("oracle.C19.twin_table_group_rules");
+        let key = |c: &Candidate| w.intersection_size(m, c, def);
+        let beaten = |sel: &Candidate, pool: &[&Candidate]| -> Option<String> {
+            let ks = key(sel);
+            for o in pool {
+                let ko = key(o);
+                let ds_comparable = ko.2.iter().map(|x| x.0).collect::<Vec<_>>() == ks.2.iter().map(|x| x.0).collect::<Vec<_>>();
+                let larger = (ko.0, ko.1) > (ks.0, ks.1) || ((ko.0, ko.1) == (ks.0, ks.1) && ds_comparable && ko.2 > ks.2);
+                let tie_earlier = ko == ks && o.entry < sel.entry;
+                if larger || tie_earlier {
+                    return Some(format!("selected {} (intersection {:?}, entry {}) although {} (intersection {:?}, entry {}) is preferred", sel.uri, ks, sel.entry, o.uri, ko, o.entry));
+                }
+            }
+            None
+        };
+        let pool0: Vec<&Candidate> = cands.iter().filter(|c| c.slot == 0 && c.format == 2).collect();
+        let mut idx = 0usize;
+        let mut u0: Option<String> = None;
+        if !pool0.is_empty() {
+            let Some(u) = uris.get(idx) else { return Err(viol("C19", "C19.group_invalidating_selected", "IFT has invalidating candidates but the group is empty".into())) };
+            let Some(sel) = pool0.iter().find(|c| &c.uri == u) else { return Err(viol("C19", "C19.group_invalidating_selected", format!("first URI {u} is not an invalidating candidate of IFT"))) };
+            if let Some(why) = beaten(sel, &pool0) {
+                return Err(viol("C19", "C19.group_largest_intersection_first", why));
+            }
+            u0 = Some(u.clone());
+            idx += 1;
+        }
+        let pool1: Vec<&Candidate> = cands.iter().filter(|c| c.slot == 1 && c.format == 2 && Some(&c.uri) != u0.as_ref()).collect();
+        if !pool1.is_empty() {
+            self.stats.bump("probe.C19.iftx_pool_after_removing_ift_pick");
+            let Some(u) = uris.get(idx) else {
+                return Err(viol("C19", "C19.group_invalidating_selected", format!("IFTX has {} invalidating candidates other than IFT's pick {:?} but none was selected (group {uris:?})", pool1.len(), u0)));
+            };
+            let Some(sel) = pool1.iter().find(|c| &c.uri == u) else {
+                return Err(viol("C19", "C19.group_invalidating_selected", format!("IFTX has invalidating candidates other than IFT's pick {:?} but the next URI {u} is not one of them (group {uris:?})", u0)));
+            };
+            if let Some(why) = beaten(sel, &pool1) {
+                return Err(viol("C19", "C19.group_largest_intersection_first", why));
+            }
+        }
+        let set: BTreeSet<&String> = uris.iter().collect();
+        if set.len() != uris.len() {
+            return Err(viol("C19", "C19.group_duplicate_uri", format!("group lists a URI twice: {uris:?}")));
+        }
+        Ok(())
+    }
+
     /// Runs the extension to fixpoint.
     pub fn run(&mut self) -> Result<RunOutcome, V> {
         let plan = self.plan;
